@@ -326,6 +326,77 @@ theorem lensMethod_mirrored (s : Setup) (focal : RegGrid) {δx δy Δx Δy zx zy
 example : lamf ⟨4, 1, ⟨[1, 1], [2, 2], [0, 0]⟩⟩ / (1 * 1) < 0 ∨ lamf ⟨4, 1, ⟨[1, 1], [2, 2], [0, 0]⟩⟩ / (1 * (-1)) < 0 := by
   right; unfold lamf; norm_num
 
+/-- **The classification is exact**: the executable `classify` says "native FFT grid" (`≠ other`) **iff** the
+commensurability equations hold exactly — on both axes there is a natural padded size `M ≥ N`, `M ≥` the focal size, with
+`M·δ_pupil·Δ_focal = λf`.  No tolerance: a grid at any non-zero distance from commensurate sampling is `other`. -/
+theorem classify_native_iff (s : Setup) (focal : RegGrid) {δx δy Δx Δy zx zy Zx Zy : ℚ} {Nx Ny Mox Moy : ℕ}
+    (hp : s.pupil = ⟨[δx, δy], [Nx, Ny], [zx, zy]⟩) (hf : focal = ⟨[Δx, Δy], [Mox, Moy], [Zx, Zy]⟩) (hlf : lamf s ≠ 0) :
+    (classify s focal).1 ≠ .other ↔
+      ∃ Mx My : ℕ, (Nx ≤ Mx ∧ Mox ≤ Mx ∧ (Mx : ℚ) * (δx * Δx) = lamf s) ∧
+        (Ny ≤ My ∧ Moy ≤ My ∧ (My : ℚ) * (δy * Δy) = lamf s) := by
+  constructor
+  · intro h
+    obtain ⟨Mx, My, _, hx, hy⟩ := classify_native_2d hp hf h
+    exact ⟨Mx, My, hx, hy⟩
+  · rintro ⟨Mx, My, ⟨hNx, hox, hx⟩, ⟨hNy, hoy, hy⟩⟩
+    have aux : ∀ {M : ℕ} {d : ℚ}, (M : ℚ) * d = lamf s → d ≠ 0 ∧ 0 < M := by
+      intro M d h
+      refine ⟨fun h0 => hlf (by rw [← h, h0, mul_zero]), Nat.pos_of_ne_zero fun h0 => hlf ?_⟩
+      rw [← h, h0]; simp
+    exact (classify_of_comm hp hf (paddedSize_of_eq (aux hx).1 (aux hx).2 hNx hx)
+      (paddedSize_of_eq (aux hy).1 (aux hy).2 hNy hy) hox hoy).1
+
+example : lamf ⟨4, 1, ⟨[1, 1], [2, 2], [0, 0]⟩⟩ ≠ 0 := by unfold lamf; norm_num
+
+/-- **Near-miss grids**: if the exact slack `|q·N − round(q·N)|` reported by the executed `commSlack` is non-zero on an
+axis — the sampling `λf/(δΔ)` is not an integer there, however close (`2^-50` relative) — the executable classification is
+`other` and the executable selection returns the MFT (which evaluates the integral on the *supplied* grid) whatever the
+planner says.  The harness compares this with the class `make_fourier_transform` builds for every generated
+perturbation above the code's own `1e-10` float test. -/
+theorem lensMethod_nearmiss (s : Setup) (focal : RegGrid) {δx δy Δx Δy zx zy Zx Zy : ℚ} {Nx Ny Mox Moy : ℕ}
+    (hp : s.pupil = ⟨[δx, δy], [Nx, Ny], [zx, zy]⟩) (hf : focal = ⟨[Δx, Δy], [Mox, Moy], [Zx, Zy]⟩)
+    (h : ∃ r ∈ commSlack s focal, r ≠ 0) (cheaper : Bool) :
+    (classify s focal).1 = .other ∧ lensMethod s focal cheaper = some Method.mft := by
+  have hc : (classify s focal).1 = .other := by
+    obtain ⟨r, hr, hr0⟩ := h
+    rw [commSlack_2d hp hf] at hr
+    simp only [List.mem_cons, List.not_mem_nil, or_false] at hr
+    rcases hr with rfl | rfl
+    · exact classify_other_of_slack_x hp hf hr0
+    · exact classify_other_of_slack_y hp hf hr0
+  refine ⟨hc, ?_⟩
+  rw [lensMethod_some s focal hp hf cheaper, hc]
+  simp
+
+/-- non-vacuity: the full pair of the examples above used at `λ = 4·(1 + 2^-20)` -/
+example : ∃ r ∈ commSlack ⟨4 + 1 / 2 ^ 18, 1, ⟨[1, 1], [2, 2], [0, 0]⟩⟩ ⟨[1, 1], [4, 4], [-2, -2]⟩, r ≠ 0 := by
+  decide +kernel
+
+/-- the slack is zero exactly at the integers: `commSlack` entries vanish iff `λf/(δΔ)` is an integer -/
+theorem commSlack_zero_iff (q : ℚ) : truncSlack q = 0 ↔ q.den = 1 := truncSlack_eq_zero_iff q
+
+/-- **The tolerant classification specialises to the exact one**: with `atol = rtol = 0` the executed `classifyLoose`
+(whose instances `1e-10, 0` and `1e-8, 1e-5` the driver reports as `tolclass` / `allclose`) *is* `classify`, for all setups
+and grids of any dimension. -/
+theorem classifyLoose_zero (s : Setup) (focal : RegGrid) : classifyLoose 0 0 s focal = classify s focal := by
+  unfold classifyLoose classify paddedSizes
+  simp only [paddedSizeLoose_zero]
+
+/-- **Counterexample for a tolerant test** (`np.allclose(q·N, round(q·N))`, `atol = 1e-8`, `rtol = 1e-5`, in place of the
+exact/`1e-10` one): the full conjugate grid of a 2×2 pupil for `λf = 4`, used at `λ = 4·(1 + 2^-20)`, is `other` for the exact
+classification but `full` with padded sizes `[4, 4]` for `classifyLoose`; the FFT built for those sizes evaluates on
+`snappedGrid`, whose sample `[3, 3]` lies at `x·(1 + 2^-20)` instead of `x = (1, 1)`, and the response of the Fourier integral to
+the pupil sample at `u = (1, 1)` differs between the two points: the result is labelled with a grid it was not computed on. -/
+theorem Bad.classifyLoose_mislabels :
+    let s : Setup := ⟨4 + 1 / 2 ^ 18, 1, ⟨[1, 1], [2, 2], [0, 0]⟩⟩
+    let focal : RegGrid := ⟨[1, 1], [4, 4], [-2, -2]⟩
+    (classify s focal).1 = .other ∧
+    classifyLoose (1 / 10 ^ 8) (1 / 10 ^ 5) s focal = (.full, [4, 4]) ∧
+    focal.point [3, 3] = [1, 1] ∧
+    (snappedGrid s focal [4, 4]).point [3, 3] = [1 + 1 / 2 ^ 20, 1 + 1 / 2 ^ 20] ∧
+    impulseResponse s 1 (focal.point [3, 3]) [1, 1] ≠ impulseResponse s 1 ((snappedGrid s focal [4, 4]).point [3, 3]) [1, 1] := by
+  decide +kernel
+
 /-- **Backward through the executed pipeline from the executable classification** (`λ f > 0`, positive focal
 spacings): the adjoint Fourier integral. -/
 theorem lens_backward_eq_adjoint_integral_of_model (s : Setup) (focal : RegGrid) {δx δy Δx Δy zx zy Zx Zy : ℚ}
